@@ -48,6 +48,36 @@ class Ctx:
     return f'{f.module.relpath}:{getattr(node, "lineno", 0)}'
 
   # ------------------------------------------------------------- queries
+  def bound_args(self, call: ast.Call, scope: Scope) -> Optional[Dict[str, ast.expr]]:
+    """Parameter name -> argument expression of a call to a function or class
+    of the analysed tree (positional and keyword arguments bound as Python
+    binds them; dataclass-style classes without __init__ take their annotated
+    fields in order).  None if the callee or the binding is not known."""
+    q = self.p.resolve(call.func, scope)
+    params = None
+    if q in self.p.funcs:
+      f = self.p.funcs[q]
+      params = list(f.params)
+      if f.cls is not None and params and params[0] in ('self', 'cls'):
+        params = params[1:]
+    elif q in self.p.classes:
+      ci = self.p.classes[q]
+      init = self.p.find_method(q, '__init__')
+      if init is not None and init.qualname.startswith('fiddle.'):
+        params = list(init.params)[1:]
+      else:
+        params = [k for k in ci.annotations if k not in ci.class_assigns or True]
+    if params is None or any(isinstance(a, ast.Starred) for a in call.args) \
+        or any(k.arg is None for k in call.keywords) or len(
+            call.args) > len(params):
+      return None
+    out = dict(zip(params, call.args))
+    for k in call.keywords:
+      if k.arg in out or k.arg not in params:
+        return None
+      out[k.arg] = k.value
+    return out
+
   def calls(self, f: FuncInfo) -> List[ast.Call]:
     return [n for n in walk_function(f.node) if isinstance(n, ast.Call)]
 
